@@ -9,7 +9,7 @@ import (
 // itself a function of (VERIF_SEED, property, case index).
 
 var fieldPool = [][]byte{[]byte("_id"), []byte("a"), []byte("b"), []byte("cc"), []byte("name"),
-	[]byte("_all"), {0x00, 'z'}, []byte("zz"), {0xc3, 0xa9}, []byte("_ie"), []byte("nam"), []byte("_i")}
+	[]byte("_all"), {0x00, 'z'}, []byte("zz"), {0xc3, 0xa9}, []byte("_ie"), []byte("nam"), []byte("_i"), {}}
 
 var termPool = [][]byte{{}, []byte("a"), []byte("b"), []byte("ab"), []byte("abc"), {'b', 0x00},
 	{0x00}, []byte("wh"), []byte("x"), {0xff}, {'a', 0xff}, []byte("zzzz"), {0x01, 0x80}, []byte("aa")}
@@ -506,4 +506,13 @@ func (cb *caseBuilder) layoutQueries(s int) {
 			cb.q("lterm", ss, hx(f), hx(t))
 		}
 	}
+}
+
+func (u *Universe) hasField(f []byte) bool {
+	for _, g := range u.fields {
+		if string(g) == string(f) {
+			return true
+		}
+	}
+	return false
 }
